@@ -4,7 +4,7 @@ configurations, judged by TLC (C02Trace)."""
 import random
 
 from bcverif import encode as E
-from bcverif.runner import pmap, setup_repo_import, suite_events
+from bcverif.runner import MachineryError, parse_prints, pmap, setup_repo_import, suite_events
 
 PARENT_CFGS = [(0, 0), (1, 1), (2, 2), (1, 0), (0, 1), (2, 3), (1, 2), (0, 0), (1, 1)]
 
@@ -96,6 +96,60 @@ def _unary_events(args):
     return ev
 
 
+def _chain_events(args):
+    """Direction A: behaviours of LocSim (TLC -simulate) performed on real objects, one event per real step."""
+    chains, _seed = args
+    setup_repo_import()
+    from inscripta.biocantor.location.strand import Strand
+
+    strands = {"+": Strand.PLUS, "-": Strand.MINUS, ".": Strand.UNSTRANDED}
+    np = ["", -1]
+    ev2, ev1 = [], []
+    steps = same = 0
+    diverged = []
+    for h in chains:
+        cur = E.make_loc(h[0][0], h[0][1], None)
+        for (act, algo) in h[1:]:
+            name = act[0]
+            a = E.loc(cur)
+            holder = []
+
+            def keep(r):
+                holder.append(r)
+                return r
+
+            if name == "sub":
+                x, y, rs = act[1], act[2], act[3]
+                o = E.outcome(lambda: keep(cur.relative_interval_to_parent_location(x, y, strands[rs])),
+                              lambda r: (E.loc(r), "*"))
+                ev2.append(["sub1", a, x, y, rs, o])
+            elif name in ("and", "minus", "or"):
+                other = E.make_loc(act[1][0], act[1][1], None)
+                ms = bool(act[2]) if name != "or" else False
+                fn = {"and": lambda: cur.intersection(other, match_strand=ms),
+                      "minus": lambda: cur.minus(other, match_strand=ms), "or": lambda: cur.union(other)}[name]
+                o = _locval(lambda: keep(fn()))
+                ev2.append(["bin1", {"and": "intersection", "minus": "minus", "or": "union"}[name], a, E.loc(other), np, np,
+                            1 if ms else 0, o])
+            else:
+                fn = {"opt": cur.optimize_blocks, "optc": getattr(cur, "optimize_and_combine_blocks", cur.optimize_blocks),
+                      "gaps": cur.gaps_location}[name]
+                o = _locval(lambda: keep(fn()))
+                ev2.append(["un1", name, a, np, o])
+            if not holder:
+                break
+            steps += 1
+            got = E.loc(holder[0])
+            if got == algo or (holder[0].is_empty and not algo[0]):
+                same += 1
+            elif len(diverged) < 5:
+                diverged.append([a, act, algo, got])
+            cur = holder[0]
+            if cur.is_empty:
+                break
+    return ev2, ev1, steps, same, diverged
+
+
 def run(chk):
     quick = chk.quick
     rnd = random.Random(chk.seed * 15485863 + 2)
@@ -129,6 +183,18 @@ def run(chk):
         ul = rnd.sample(ul, 2500)
     parts = pmap(_unary_events, [(ul[i::32], G + 4, chk.seed * 71 + i) for i in range(32)])
     evs += [e for p in parts for e in p]
+    # direction A: behaviours of the calculator machine chosen by TLC, performed on real objects
+    r = chk.mc("LocSim", "LocSim.cfg", workers=1, simulate="num=%d" % (1500 if quick else 20000),
+               extra=["-depth", "5", "-seed", str(chk.seed + 11)],
+               note="simulated behaviours of LocMC (Locs(6,3) start, operands Locs(6,2), 4 steps) emitted for replay")
+    chains = [c[0] for c in parse_prints(r["out"], "CHAIN")]
+    if len(chains) < 200:
+        raise MachineryError("TLC emitted only %d calculator behaviours" % len(chains))
+    parts = pmap(_chain_events, [(chains[i::32], i) for i in range(32)])
+    evs += [e for p in parts for e in p[0]]
+    chk.extra["calculator_behaviours_replayed"] = len(chains)
+    chk.extra["algo_fidelity"] = {"real_steps": sum(p[2] for p in parts), "identical_to_transcribed_algorithm":
+                                  sum(p[3] for p in parts), "divergent_examples": [d for p in parts for d in p[4]][:5]}
     # leg S: the calls the repository's own tests make, judged with the same clauses
     evs += suite_events(chk, "C02Trace")
     chk.validate("C02Trace", evs, shard=1200, label="algebra")
